@@ -135,6 +135,13 @@ def gen_monetary(ctx, asset, n, atomic=False):
     """text of an expression of type monetary with value [asset n]
     (atomic: no top-level infix, for the right operand of a left-associative operator)"""
     fits = -(2 ** 63) <= n < 2 ** 63
+    if not atomic and not fits and ctx.chance("infix_big", 0.25) and n >= 0:
+        # arithmetic on amounts beyond one machine word, the operands being variables read again elsewhere
+        a = ctx.rng.choice([0, 1, 5, 2 ** 64, n // 2])
+        ctx.features.add("infix-big")
+        if ctx.rng.random() < 0.6:
+            return "%s + %s" % (gen_monetary(ctx, asset, n - a, True), gen_monetary(ctx, asset, a, True))
+        return "%s - %s" % (gen_monetary(ctx, asset, n + a, True), gen_monetary(ctx, asset, a, True))
     if ctx.chance("mon_var", 0.25) or not fits:
         return ctx.declare("monetary", ('monetary', asset, n), "%s %d" % (asset, n))
     if not atomic and ctx.chance("infix", 0.1) and n >= 0:
@@ -530,6 +537,16 @@ def gen_case(seed, index, profile=None):
                 var_error = ("NegativeBalanceError", [a, str(b)])
                 break
 
+    # amounts the store holds as nil (`null` in JSON): on pairs that have no other entry, they read as absent
+    nil_bal = {}
+    if ctx.chance("nil_balances", 0.08):
+        for a in rng.sample(ACCOUNTS + ["escrow", "x"], 2):
+            for c in ASSETS3:
+                if (a, c) not in ctx.balances and rng.random() < 0.7:
+                    nil_bal.setdefault(a, []).append(c)
+        if nil_bal:
+            ctx.features.add("nil-amount-in-store")
+
     case = {
         "script": text,
         "vars": dict(ctx.raw),
@@ -537,6 +554,8 @@ def gen_case(seed, index, profile=None):
         "meta": nest(ctx.meta),
         "flags": flags,
     }
+    if nil_bal:
+        case["nilBalances"] = nil_bal
     gen = {
         "stmts": [s for _, s in stmts],
         "features": sorted(ctx.features),
